@@ -2,7 +2,9 @@
 through an op list using the public API only.
 
 on_computed subscribers carry a behaviour script (model: Futures.cbkind): after recording the outcome
-they see, they return, raise, unsubscribe a subscriber (themselves, a later or an earlier one) from
+they see, they return, raise an Exception of a given class (model: Futures.xcls - the harness's own class,
+AssertionError from a failing assert, a subclass of it, ValueError, KeyError, ..., StopIteration,
+FutureIsAlreadyComputed, BatchingError, a user-defined class; _raise_cls), unsubscribe a subscriber (themselves, a later or an earlier one) from
 fut.on_computed, subscribe a new one, or do several of these in sequence (class _Subscribers).
 
 Kind "KSusp" (model: TaskFut.v) is an AsyncTask whose body yields one dependency per phase inside a
@@ -12,7 +14,7 @@ import _common
 import asynq as asynq_pkg
 from asynq import asynq
 from asynq.futures import FutureBase, Future, ConstFuture, ErrorFuture, FutureIsAlreadyComputed
-from asynq.batching import BatchBase, BatchItemBase
+from asynq.batching import BatchBase, BatchItemBase, BatchingError, BatchCancelledError
 
 E_RUNTIME = -9
 E_SKIPPED = -20
@@ -28,6 +30,70 @@ class VBase(BaseException):
     def __init__(self, i):
         BaseException.__init__(self, i)
         self.vid = i
+
+
+class _Custom(Exception):
+    """user-defined direct subclass of Exception"""
+
+
+class _AssertionSub(AssertionError):
+    """user-defined subclass of AssertionError"""
+
+
+# subscribers' exceptions of the current case: (exception object, subscriber id, class name) - lets the
+# runner say "this operation raised the very exception a subscriber raised" (identity, not class)
+_RAISED = []
+
+
+def _raise_cls(f, sid, cls):
+    """What a raising on_computed subscriber does (model: CbRaise cls).  Every class is an Exception
+    subclass; XAssertion comes from a failing `assert`, the way user callbacks produce it."""
+    if cls == "XUser":
+        e = VErr(900 + sid)
+    elif cls == "XAssertion":
+        try:
+            assert f is None, "subscriber %d: sanity check failed" % sid
+            e = AssertionError("subscriber %d" % sid)        # only under python -O
+        except AssertionError as x:
+            e = x
+    elif cls == "XAssertionSub":
+        e = _AssertionSub("subscriber %d" % sid)
+    elif cls == "XValue":
+        e = ValueError(sid)
+    elif cls == "XKey":
+        try:
+            e = KeyError(sid)
+            {}[sid]
+        except KeyError as x:
+            e = x
+    elif cls == "XIndex":
+        e = IndexError(sid)
+    elif cls == "XType":
+        e = TypeError(sid)
+    elif cls == "XAttribute":
+        e = AttributeError(sid)
+    elif cls == "XZeroDivision":
+        e = ZeroDivisionError(sid)
+    elif cls == "XOSError":
+        e = OSError(sid)
+    elif cls == "XRuntime":
+        e = RuntimeError(sid)
+    elif cls == "XNotImplemented":
+        e = NotImplementedError(sid)
+    elif cls == "XStopIteration":
+        e = StopIteration(sid)
+    elif cls == "XAlreadyComputed":
+        e = FutureIsAlreadyComputed(f)
+    elif cls == "XBatching":
+        e = BatchingError(sid)
+    elif cls == "XBatchCancelled":
+        e = BatchCancelledError(sid)
+    elif cls == "XCustom":
+        e = _Custom(sid)
+    else:
+        raise ValueError(cls)
+    _RAISED.append((e, sid, cls))
+    raise e
 
 
 def pyval(t):
@@ -48,10 +114,19 @@ def treeval(v):
 
 
 def exn_id(e):
+    for x, sid, cls in _RAISED:
+        if x is e:
+            return {"FromSubscriber": [sid, {"s": cls}]}
     if isinstance(e, (VErr, VBase)):
         return e.vid
     if isinstance(e, FutureIsAlreadyComputed):
         return -3
+    if type(e) is AssertionError and "wasn't set on batch flush" in str(e):
+        return -2
+    if type(e) is BatchCancelledError:
+        return -6
+    if type(e) is BatchingError:
+        return -5
     if isinstance(e, NotImplementedError):
         return -4
     if type(e) is RuntimeError:
@@ -97,11 +172,13 @@ class _Subscribers(object):
     subscribe()/unsubscribe() calls that returned normally: `reg` = (sid, handler) in call order.
     `sinking` = ConstFuture / ErrorFuture, whose hook ignores subscriptions."""
 
-    def __init__(self, log, sinking=False):
+    def __init__(self, log, sinking=False, tag=None):
         self.log = log
         self.sinking = sinking
+        self.tag = tag       # KBatch: which future of the case these subscribers belong to (0 = batch, i = item i)
         self.reg = []
         self.events = []     # what the subscribers did to the subscription list while being called
+        self.raises = []     # which subscriber raised which Exception class, during which notification
 
     def ids(self):
         return [sid for sid, _ in self.reg]
@@ -109,7 +186,7 @@ class _Subscribers(object):
     def subscribe(self, fut, sid, k):
         def cb(f, sid=sid, k=k):
             nlog = len(self.log)
-            self.log.append({"": [sid, peek(f) or "NotVisible"]})
+            self.log.append({"": ([] if self.tag is None else [self.tag]) + [sid, peek(f) or "NotVisible"]})
             self.script(f, sid, k, nlog)
         cb.sid = sid
         fut.on_computed.subscribe(cb)
@@ -121,7 +198,8 @@ class _Subscribers(object):
         if name == "CbOk":
             return
         if name == "CbRaise":
-            raise VErr(900 + sid)
+            self.raises.append({"nlog": nlog, "by": sid, "cls": a[0]})
+            _raise_cls(f, sid, a[0])
         if name == "CbUnsub":
             target = a[0]
             idx = [i for i, (t, _) in enumerate(self.reg) if t == target]
@@ -310,12 +388,136 @@ def run_susp(c):
         res.append(r)
         point("post", "top", i, name, {"r": r})
     return {"out": {"": [res, inner_res, log, runs[0], reg.final(task)]}, "points": points, "prov": provlog,
-            "events": reg.events}
+            "events": reg.events, "raises": reg.raises}
+
+
+def run_batch(c):
+    """KBatch (model: BatchFut.v): a BatchBase with BatchItemBase items, every future with its own scripted
+    subscribers; the flush body goes over the items and sets what the case says, then returns / raises."""
+    _, items, fin, ops = c["args"]
+    asynq_pkg.scheduler.reset()
+    runs = [0]
+    log = []
+    inner_res = []
+    points = []
+    provlog = []
+
+    def work(batch):
+        runs[0] += 1
+        for idx, it in enumerate(its):
+            for j, o in enumerate(acts[idx]):
+                (k, a), = o.items()
+                name = "ISetValue" if k == "Ok" else "ISetError"
+                point("pre", "in", j, name, {"t": idx + 1})
+                try:
+                    if k == "Ok":
+                        it.set_value(pyval(a[0]))
+                    else:
+                        it.set_error(VErr(a[0]))
+                    r = "RUnit"
+                except BaseException as e:
+                    if isinstance(e, _common.Hang):
+                        raise
+                    r = {"RRaise": [exn_id(e)]}
+                    inner_res.append(r)
+                    point("post", "in", j, name, {"t": idx + 1, "r": r})
+                    provlog.append({"Err": [exn_id(e)]})
+                    raise                       # a plain `for item: item.set_value(...)` body: the exception ends it
+                inner_res.append(r)
+                point("post", "in", j, name, {"t": idx + 1, "r": r})
+        (k, a), = fin.items()
+        if k == "PRet":
+            provlog.append({"Ok": ["VNone"]})    # the batch's value is None whatever _flush returns
+            return pyval(a[0])
+        provlog.append({"Err": [a[0]]})
+        if k == "PRaise":
+            raise VErr(a[0])
+        raise VBase(a[0])
+
+    batch = _Batch(work)
+    its = []
+    acts = []
+    regs = [_Subscribers(log, tag=0)]
+    for idx, sp in enumerate(items):
+        subs, act = sp[""]
+        it = _Item(batch)
+        its.append(it)
+        acts.append(act)
+        reg = _Subscribers(log, tag=idx + 1)
+        regs.append(reg)
+        for sb in subs:
+            reg.subscribe(it, sb[""][0], sb[""][1])
+    futs = [batch] + its
+
+    def point(when, lvl, i, name, extra=None):
+        d = {"when": when, "lvl": lvl, "i": i, "op": name, "st": [peek(f) for f in futs], "nlog": len(log),
+             "subs": [r.ids() for r in regs], "runs": runs[0], "nprov": len(provlog)}
+        if extra:
+            d.update(extra)
+        points.append(d)
+
+    res = []
+    for i, op in enumerate(ops):
+        name, a = _split(op)
+        t = 0
+        if name == "BOn":
+            t = a[0]["n"]
+            name, a = _split(a[1])
+        point("pre", "top", i, name, {"t": t})
+        try:
+            f = futs[t] if t < len(futs) else None
+            if name == "BFlush":
+                batch.flush()
+                r = "RUnit"
+            elif name == "BCancel":
+                batch.cancel()
+                r = "RUnit"
+            elif f is None:
+                r = {"RRaise": [E_SKIPPED]}
+            elif name == "OIsComputed":
+                r = {"RBool": ["true" if f.is_computed() else "false"]}
+            elif name in ("OValue", "OCall", "OError") and t > 0 and batch.is_computed() and not f.is_computed():
+                r = {"RRaise": [E_SKIPPED]}    # (only reachable if the batch's completion left an item behind)
+            elif name == "OValue":
+                r = {"RVal": [treeval(f.value())]}
+            elif name == "OCall":
+                r = {"RVal": [treeval(f())]}
+            elif name == "OError":
+                e = f.error()
+                r = "RNoError" if e is None else {"RErr": [exn_id(e)]}
+            elif t == 0 and name == "OSetValue":
+                f.set_value(pyval(a[0]))
+                r = "RUnit"
+            elif t == 0 and name == "OSetError":
+                f.set_error(VErr(a[0]))
+                r = "RUnit"
+            elif t == 0 and name == "OSubscribe":
+                regs[0].subscribe(f, a[0], a[1])
+                r = "RUnit"
+            else:
+                r = {"RRaise": [E_SKIPPED]}      # not part of this family: not issued
+        except BaseException as e:
+            if isinstance(e, _common.Hang):
+                raise
+            r = {"RRaise": [exn_id(e)]}
+        res.append(r)
+        point("post", "top", i, name, {"t": t, "r": r})
+    finals = []
+    for it, reg in zip(its, regs[1:]):
+        st = peek(it)
+        finals.append({"": ["None" if st is None else {"Some": [st]}, reg.final(it)]})
+    events = [dict(e, fut=r.tag) for r in regs for e in r.events]
+    raises = [dict(e, fut=r.tag) for r in regs for e in r.raises]
+    return {"out": {"": [res, inner_res, log, runs[0], regs[0].final(batch), finals]}, "points": points, "prov": provlog,
+            "events": events, "raises": raises}
 
 
 def run_case(c):
+    del _RAISED[:]
     if c["args"][0] == "KSusp":
         return run_susp(c)
+    if c["args"][0] == "KBatch":
+        return run_batch(c)
     kind, prov, o0, ops = c["args"]
     script = list(prov)
     runs = [0]
@@ -399,7 +601,7 @@ def run_case(c):
         res.append(r)
         obs.append({"op": name, "pre": pre, "post": peek(fut), "runs": runs[0] - pre_runs, "nlog": len(log),
                     "prov": provlog[pre_prov:], "subs": pre_subs})
-    return {"out": {"": [res, log, runs[0], reg.final(fut)]}, "obs": obs, "events": reg.events}
+    return {"out": {"": [res, log, runs[0], reg.final(fut)]}, "obs": obs, "events": reg.events, "raises": reg.raises}
 
 
 if __name__ == "__main__":
